@@ -1,36 +1,175 @@
 /-
-C02 - property theorems.  The multi-chunk loop of `update_with_join` preserves the representation
-invariant (stack = collapsed blocks of leaf chaining values with lazily merged sizes); see
-B3/Tree/Hasher.lean for the invariant `Hs.Inv`.
+C02 - property theorems: incremental hashing is independent of input splitting; finalize is a
+pure query.  All statements are about the executable model `B3.Rs.Hasher` (B3/Model/Rs.lean) run
+with the compression function generated from src/portable.rs (`genK`), for every SIMD degree.
 -/
-import B3.Tree.Hasher
-import B3.Tree.Final
+import B3.Proofs.Final
+import B3.Proofs.GenK
 namespace B3.Props.C02
-open Hs Tr St
+open B3 B3.Rs
 
-variable {α β : Type} (node : α → α → α) (d : α) (c : Nat) (leaf : Nat → List β → α) (pair : Nat → List β → α × α)
+/-- a register of the history machine: a hasher, its mode, and (ghost) the bytes absorbed so far -/
+structure Reg where
+  h : Hasher
+  mode : Spec.Mode
+  absorbed : List UInt8
 
-/-- the loop `while input.len() > CHUNK_LEN` of `update_with_join`, for every input, every chunk
-counter and every SIMD degree: it consumes a prefix of the input made of whole subtrees, leaves at
-most one chunk, and the CV stack afterwards represents exactly the chunks consumed so far with
-lazily merged sizes (`Hs.Inv`) -/
-theorem update_loop_invariant (hp : PairSpec node d c leaf pair)
-    (h : H α β) (input m : List β) (bs : List (List α))
-    (hi : Inv node d c leaf h m bs) (hz : ∀ k, 2 ^ k * 2 ^ c ≤ input.length → 2 ^ k ∣ h.t0) :
-    ∃ (consumed : List β) (bs' : List (List α)),
-      input = consumed ++ (loop node d c leaf pair h input).2 ∧
-      (loop node d c leaf pair h input).2.length ≤ 2 ^ c ∧
-      Inv node d c leaf (loop node d c leaf pair h input).1 (m ++ consumed) bs' ∧
-      (loop node d c leaf pair h input).1.t0 = h.t0 := by
-  obtain ⟨cons, bs', a, b, c', _, e, _, _⟩ := loop_inv node d c leaf pair hp input.length h input m bs rfl hi hz
-  exact ⟨cons, bs', a, b, c', e⟩
+/-- state-changing operations on a bank of registers (queries are not transitions: `finalize`,
+`finalize_xof` and `count` take `&self`, and in the model they are functions of the state) -/
+inductive Op where
+  | new (mode : Spec.Mode)                 -- appends a fresh hasher
+  | update (i : Nat) (x : List UInt8)      -- `update` / `Write::write` / `update_reader` pieces
+  | clone (i : Nat)                        -- appends a copy of register i
+  | reset (i : Nat)
 
-/-- `merge_cv_stack` on a lazily merged stack yields the canonical stack (sizes = binary
-decomposition of the chunk count) over the same leaves -/
-theorem merge_cv_stack_canonical (T : Nat) (bs : List (List α)) (hl : Lazy T (bs.map List.length)) :
-    ∃ bs' : List (List α),
-      mergeStack node d (popcount T) (bs.map (collapse node d)) = bs'.map (collapse node d)
-      ∧ bs'.flatten = bs.flatten ∧ bs'.map List.length = bd T :=
-  mergeStack_blocks node d T _ hl bs rfl
+def newReg (sd : Nat) (mode : Spec.Mode) : Reg :=
+  { h := Hasher.newInternal (modeKeyWords genK sd mode) (modeFlags mode), mode := mode, absorbed := [] }
+
+def step (sd : Nat) (s : List Reg) : Op → List Reg
+  | .new mode => s ++ [newReg sd mode]
+  | .update i x => match s[i]? with
+    | some r => match r.h.update genK sd x with
+      | some h' => s.set i { r with h := h', absorbed := r.absorbed ++ x }
+      | none => s
+    | none => s
+  | .clone i => match s[i]? with
+    | some r => s ++ [r]
+    | none => s
+  | .reset i => match s[i]? with
+    | some r => s.set i { r with h := r.h.reset, absorbed := [] }
+    | none => s
+
+def run (sd : Nat) (ops : List Op) : List Reg := ops.foldl (step sd) []
+
+/-- what a register must satisfy: the representation invariant for exactly its absorbed bytes -/
+def Ok (r : Reg) : Prop :=
+  Proofs.Rep r.h r.absorbed ∧ r.h.key = r.mode.key ∧ r.h.cs.flags = r.mode.flags ∧ r.h.t0 = 0
+
+theorem update_total (sd : Nat) (r : Reg) (x : List UInt8) (h0 : r.h.t0 = 0) :
+    ∃ h', r.h.update genK sd x = some h' := by
+  simp [Hasher.update, maxSubtreeLen, h0]
+
+theorem step_ok (sd j : Nat) (hsd : sd = 2 ^ j) (s : List Reg) (op : Op) (hs : ∀ r ∈ s, Ok r) :
+    ∀ r ∈ step sd s op, Ok r := by
+  have hK := Proofs.genK_eq_spec
+  cases op with
+  | new mode =>
+    intro r hr
+    simp only [step, List.mem_append, List.mem_singleton] at hr
+    rcases hr with hr | hr
+    · exact hs r hr
+    · subst hr
+      refine ⟨Proofs.rep_new _ _, ?_, ?_, rfl⟩
+      · show modeKeyWords genK sd mode = mode.key
+        rw [hK]; exact Proofs.modeKeyWords_eq sd j hsd mode
+      · exact Proofs.modeFlags_eq mode
+  | update i x =>
+    cases hi : s[i]? with
+    | none => simp only [step, hi]; exact hs
+    | some r0 =>
+      have hr0 : r0 ∈ s := List.mem_of_getElem? hi
+      obtain ⟨rep, k1, k2, k3⟩ := hs r0 hr0
+      cases hu : r0.h.update genK sd x with
+      | none => simp only [step, hi, hu]; exact hs
+      | some h' =>
+        intro r hr
+        simp only [step, hi, hu] at hr
+        rcases List.mem_or_eq_of_mem_set hr with hr | hr
+        · exact hs r hr
+        · subst hr
+          rw [hK] at hu
+          obtain ⟨a, b, c, d⟩ := Proofs.rep_update sd j hsd r0.h h' r0.absorbed x rep hu
+          exact ⟨a, by rw [b]; exact k1, by rw [c]; exact k2, by rw [d]; exact k3⟩
+  | clone i =>
+    cases hi : s[i]? with
+    | none => simp only [step, hi]; exact hs
+    | some r0 =>
+      intro r hr
+      simp only [step, hi, List.mem_append, List.mem_singleton] at hr
+      rcases hr with hr | hr
+      · exact hs r hr
+      · subst hr; exact hs _ (List.mem_of_getElem? hi)
+  | reset i =>
+    cases hi : s[i]? with
+    | none => simp only [step, hi]; exact hs
+    | some r0 =>
+      obtain ⟨_, k1, k2, _⟩ := hs r0 (List.mem_of_getElem? hi)
+      intro r hr
+      simp only [step, hi] at hr
+      rcases List.mem_or_eq_of_mem_set hr with hr | hr
+      · exact hs r hr
+      · subst hr
+        exact ⟨Proofs.rep_new _ _, k1, k2, rfl⟩
+
+/-- every register of every reachable state satisfies the invariant -/
+theorem run_ok (sd j : Nat) (hsd : sd = 2 ^ j) (ops : List Op) : ∀ r ∈ run sd ops, Ok r := by
+  unfold run
+  suffices h : ∀ (s : List Reg), (∀ r ∈ s, Ok r) → ∀ r ∈ ops.foldl (step sd) s, Ok r from
+    h [] (by simp)
+  induction ops with
+  | nil => intro s hs; simpa using hs
+  | cons op ops ih => intro s hs; exact ih _ (step_ok sd j hsd s op hs)
+
+/-- **Split independence.** After any history of `new`, `update` (any sizes, any number, any
+interleaving between registers), `clone` and `reset`, at every SIMD degree, for every register:
+`finalize` returns the specification's hash of exactly the bytes that register has absorbed,
+`finalize_xof` reads from the specification's root node (hence the spec's output stream), and
+`count()` is the number of bytes absorbed. -/
+theorem history_correct (sd j : Nat) (hsd : sd = 2 ^ j) (ops : List Op) (r : Reg) (hr : r ∈ run sd ops) :
+    r.h.finalize genK = some (Spec.hash r.mode r.absorbed) ∧
+    r.h.finalOutput genK = Spec.root r.mode r.absorbed ∧
+    r.h.count = r.absorbed.length := by
+  obtain ⟨rep, k1, k2, k3⟩ := run_ok sd j hsd ops r hr
+  have hroot : r.h.finalOutput genK = Spec.root r.mode r.absorbed := by
+    rw [Proofs.genK_eq_spec, Proofs.finalOutput_root r.h r.absorbed rep k3, k1, k2]; rfl
+  refine ⟨?_, hroot, (Proofs.rep_count r.h r.absorbed rep).1⟩
+  unfold Hasher.finalize
+  rw [if_neg (by simp [k3]), hroot]
+  congr 1
+  rw [Proofs.genK_eq_spec]
+  exact Proofs.rootHash_eq _ (Proofs.rootNode_blen _ _ _)
+
+/-- the same statement for a single hasher and an explicit list of updates: the result depends only
+on the concatenation -/
+theorem update_split_independent (sd j : Nat) (hsd : sd = 2 ^ j) (mode : Spec.Mode) (xs : List (List UInt8)) :
+    ∃ h, xs.foldl (fun (o : Option Hasher) x => o.bind (fun h => h.update genK sd x))
+            (some (Hasher.newInternal (modeKeyWords genK sd mode) (modeFlags mode))) = some h ∧
+         h.finalize genK = some (Spec.hash mode xs.flatten) ∧ h.count = xs.flatten.length := by
+  have key := history_correct sd j hsd (Op.new mode :: xs.map (Op.update 0))
+  -- run the machine and read register 0
+  have hrun : ∀ (ys : List (List UInt8)) (r : Reg), (∀ q ∈ [r], Ok q) →
+      ∃ h, ys.foldl (fun (o : Option Hasher) x => o.bind (fun h => h.update genK sd x)) (some r.h) = some h ∧
+        (ys.map (Op.update 0)).foldl (step sd) [r] = [{ r with h := h, absorbed := r.absorbed ++ ys.flatten }] := by
+    intro ys
+    induction ys with
+    | nil => intro r _; exact ⟨r.h, rfl, by simp⟩
+    | cons y ys ih =>
+      intro r hr
+      obtain ⟨h', hu⟩ := update_total sd r y (hr r (by simp)).2.2.2
+      have hstep : step sd [r] (Op.update 0 y) = [{ r with h := h', absorbed := r.absorbed ++ y }] := by
+        simp [step, hu]
+      have hok := step_ok sd j hsd [r] (Op.update 0 y) hr
+      rw [hstep] at hok
+      obtain ⟨h'', e1, e2⟩ := ih _ hok
+      refine ⟨h'', ?_, ?_⟩
+      · simp only [List.foldl_cons, Option.bind_some, hu]; exact e1
+      · simp only [List.map_cons, List.foldl_cons, hstep, e2]
+        simp
+  have h0 : ∀ q ∈ [newReg sd mode], Ok q := by
+    have := step_ok sd j hsd [] (Op.new mode) (by simp)
+    simpa [step] using this
+  obtain ⟨h, e1, e2⟩ := hrun xs (newReg sd mode) h0
+  have hmem : ({ newReg sd mode with h := h, absorbed := (newReg sd mode).absorbed ++ xs.flatten } : Reg)
+      ∈ run sd (Op.new mode :: xs.map (Op.update 0)) := by
+    unfold run
+    simp only [List.foldl_cons]
+    show _ ∈ List.foldl (step sd) ([] ++ [newReg sd mode]) _
+    rw [List.nil_append, e2]; simp
+  obtain ⟨a, _, c⟩ := key _ hmem
+  exact ⟨h, e1, by simpa [newReg] using a, by simpa [newReg] using c⟩
+
+/-- non-vacuity: a concrete history -/
+example : (run 4 [Op.new .hash, Op.clone 0, Op.reset 1]).length = 2 := by
+  simp [run, step]
 
 end B3.Props.C02
